@@ -24,7 +24,7 @@ from detsim.wsgi_sim import WsgiExchange, make_environ
 
 PROPERTY = 'C19'
 LEVEL = 'exploration'
-RUNS = {'quick': 20000, 'thorough': 1000000}
+RUNS = {'quick': 20000, 'thorough': 500000}
 BATCH = 200
 RULE = ('one run = one generated app (3-8 routes with literal/field/int/uuid/path/multi-field '
         'segments, 0-2 context-stamping middleware, echoing responders, error routes) x 2-3 '
